@@ -505,9 +505,15 @@ def rule_accum_delta(P):
             u = n.targets[0].id
     if u is None:
         raise AnalysisError("cfg.py::CFG.derivative: U = self.null_weight() not found")
+    # the nullable-prefix factor: the local (re)initialised to R.one inside the loop over the rules
+    dname = None
+    for n in walk_live(f.node):
+        if isinstance(n, ast.Assign) and isinstance(n.targets[0], ast.Name) and norm(n.value).endswith(".one") and W.enclosing_loops(n):
+            dname = n.targets[0].id
+    if dname is None:
+        raise AnalysisError("cfg.py::CFG.derivative: nullable-prefix factor (initialised to R.one per rule) not found")
     upd = [n for n in walk_live(f.node) if isinstance(n, (ast.AugAssign, ast.Assign)) and
-           any(W.is_name(t, "delta") for t in ([n.target] if isinstance(n, ast.AugAssign) else n.targets))]
-    dname = "delta"
+           any(W.is_name(t, dname) for t in ([n.target] if isinstance(n, ast.AugAssign) else n.targets))]
     inits = [n for n in upd if isinstance(n, ast.Assign)]
     augs = [n for n in upd if isinstance(n, ast.AugAssign)]
     inner = None
